@@ -13,10 +13,9 @@ META = dict(
                'with g the value of the gravity model, 0 for composition/grains/velocity, -1 for the tag - and a forced surface temperature at '
                'depth 0 is what is returned whatever the features do and however the request is shaped.',
     level_note='Trusted: translator, shims, CBMC; the feature interface contract (features may write any value into a slot: that is what '
-               'makes "regardless of features" a real obligation); exp is an uninterpreted symbol. Constants wiring in World::parse_entries '
-               '(rapidjson-bound Parameters::get) is not under contract.',
-    scope='World::properties (3D): background per block kind, adiabat expression, forced surface temperature for every request shape; GravityModel::Uniform::gravity_norm returns the configured magnitude',
-    not_covered=['that the six constants are read from the right JSON keys (Parameters::get is rapidjson-bound and outside the translator)',
+               'makes "regardless of features" a real obligation); exp is an uninterpreted symbol. Parameters::get<T>(key) is a contract stub answering an arbitrary value per key.',
+    scope='World::properties (3D): background per block kind, adiabat expression, forced surface temperature for every request shape; GravityModel::Uniform::gravity_norm returns the configured magnitude; World::parse_entries stores the value of each constant\'s own key (potential mantle temperature, surface temperature, force surface temperature, thermal expansion coefficient, specific heat, thermal diffusivity)',
+    not_covered=['Parameters::get itself (rapidjson DOM lookup, schema defaults)', 'that Uniform::parse_entries stores the "magnitude" key',
                  'the 2*epsilon window around depth 0 is accepted as an implementation of "at depth zero"'],
     enforced_elsewhere={},
 )
@@ -24,8 +23,15 @@ META = dict(
 _u = copy.deepcopy([u for u in C01.UNITS if u['name'] == 'props3d'][0])
 _u['name'] = 'props3d_background'
 
+# World::parse_entries (constants wiring / cross-section direction): shared contract file, unit defined in C15.py
+_spec15 = importlib.util.spec_from_file_location('c15', os.path.join(HERE, 'C15.py'))
+C15 = importlib.util.module_from_spec(_spec15)
+_spec15.loader.exec_module(C15)
+_wp = copy.deepcopy(C15.WORLD_PARSE)
+_wp['name'] = 'world_parse_constants'
+
 UNITS = [
-    _u,
+    _u, _wp,
     dict(name='gravity_uniform', enforce='GravityModel_Uniform_gravity_norm', contracts='c03_gravity.c',
          targets=[dict(tu='source/world_builder/gravity_model/uniform.cc', qual='WorldBuilder::GravityModel::Uniform::gravity_norm')],
          defines={'WB_VEC_CAP': 2}, expect_fail=['REACHABILITY-GUARD']),
